@@ -29,7 +29,8 @@ LEVEL_TEXT = ("Exploration by generated-input search over relations the statemen
               "JSON text / StringIO / BytesIO documents give the parsed document's result, and a compound query's findall, "
               "finditer, match and query equal the left-to-right fold of its operands' own findall results (union = "
               "concatenation, intersection = left restricted to values the right produced). All operator strings of length <= 3 "
-              "over {|, &} x operand result lists from a 6-list universe are enumerated.")
+              "over {|, &} x operand result lists from a 6-list universe are enumerated."
+              ' The degenerate queries are also run on the JSON text / StringIO / BytesIO forms of every container document.')
 LEVEL_TEXT += ' Also exhaustive: 38 segment-less, fake-root, compound and context-reading queries x 18 scalar / empty / tiny documents x 3 filter contexts through all 14 entry points; documents as padded / indented / raw non-ASCII JSON text.'
 BUDGET_S = {"quick": 60, "thorough": 500}
 RULE = ("Simple and compound queries (1-4 operands, any mix of | and &) x documents x {parsed value, JSON text, StringIO, BytesIO}. "
